@@ -203,6 +203,13 @@ def entries():
     add("OpUp.explicit", lambda: pt.Seq(pt.OpUp(pt.OpUpMode.Explicit, I(1)).ensure_budget(I(1000)), I(1)))
     add("OpUp.oncall", lambda: pt.Seq(pt.OpUp(pt.OpUpMode.OnCall).maximize_budget(I(1000)), I(1)))
     add("Subroutine", lambda: _sub()(I(1)))
+    # call objects built by hand from a definition (legal, if unusual): their declared type must be the callee's
+    add("SubroutineCall.plain", lambda: pt.SubroutineCall(_sub().subroutine, [I(1)]))
+    add("SubroutineCall.none", lambda: pt.SubroutineCall(_sub_none().subroutine, [I(1)]))
+    add("SubroutineCall.abi_output", lambda: pt.SubroutineCall(_abi_sub().subroutine, []))
+    add("SubroutineCall.abi_output_arg", lambda: pt.SubroutineCall(_abi_sub1().subroutine, [_abi_u64()]))
+    add("ABIReturnSubroutine.call", lambda: pt.Seq((r := pt.abi.Uint64()).set(_abi_sub()()), r.get()))
+    add("ABIReturnSubroutine.void", lambda: _abi_void()())
     # --- inner transactions
     add("Itxn.pay", lambda: pt.Seq(pt.InnerTxnBuilder.Begin(), pt.InnerTxnBuilder.SetFields({
         pt.TxnField.type_enum: pt.TxnType.Payment, pt.TxnField.amount: I(1), pt.TxnField.receiver: pt.Txn.sender()}),
@@ -222,6 +229,39 @@ def _sub():
     def ident(x):
         return x + I(1)
     return ident
+
+
+def _sub_none():
+    @pt.Subroutine(pt.TealType.none)
+    def drop(x):
+        return pt.Pop(x)
+    return drop
+
+
+def _abi_sub():
+    @pt.ABIReturnSubroutine
+    def get7(*, output: pt.abi.Uint64) -> pt.Expr:
+        return output.set(I(7))
+    return get7
+
+
+def _abi_sub1():
+    @pt.ABIReturnSubroutine
+    def inc(a: pt.abi.Uint64, *, output: pt.abi.Uint64) -> pt.Expr:
+        return output.set(a.get() + I(1))
+    return inc
+
+
+def _abi_void():
+    @pt.ABIReturnSubroutine
+    def note() -> pt.Expr:
+        return pt.Log(By("n"))
+    return note
+
+
+def _abi_u64():
+    v = pt.abi.Uint64()
+    return v
 
 
 def wrap(e):
